@@ -4,16 +4,24 @@ no obligation may become violated and no check may become undecided. Exit 1 on a
 import glob,os,subprocess,sys
 os.chdir('/verif')
 ENV="export PATH=/opt/veriftools/go1.26.8/bin:$PATH GOTOOLCHAIN=local GOFLAGS=-mod=mod GOPROXY=off GOSUMDB=off; unset GOWORK; "
-WT='/tmp/neutralwt'
+SH=os.environ.get('NEUTRAL_SHARD','')  # 'k/N': every N-th patch starting at k, own worktree and binary copy
+WT='/tmp/neutralwt'+SH.replace('/','_')
+BIN='bin/amcheck'
+if SH:
+    import shutil
+    BIN='/tmp/amcheck.neutral'+SH.replace('/','_'); shutil.copy('/verif/bin/amcheck',BIN)
 def sh(c):
     p=subprocess.run(['bash','-c',ENV+c],capture_output=True,text=True); return p.returncode,p.stdout+p.stderr
 def viol():
-    rc,out=sh('bin/amcheck -repo %s -prop all -listviol 2>&1'%WT)
+    rc,out=sh('%s -verif /verif -repo %s -prop all -listviol 2>&1'%(BIN,WT))
     return set(l for l in out.splitlines() if l.startswith('V ') or l.startswith('U ') or l.startswith('UNDECIDED'))
 sh('git -C /repo worktree remove --force %s 2>/dev/null; git -C /repo worktree add --detach %s HEAD -q'%(WT,WT))
 base=viol()
 bad=0
-for d in sorted(glob.glob('/verif/neutral/*.diff')):
+allp=sorted(glob.glob('/verif/neutral/*.diff'))
+if SH:
+    k,N=map(int,SH.split('/')); allp=allp[k::N]
+for d in allp:
     sh('git -C %s checkout -- .'%WT)
     rc,o=sh('git -C %s apply %s'%(WT,d))
     if rc!=0:
